@@ -572,6 +572,21 @@ def opSearch (j : Json) : R Json := do
       ("visited", Json.arr (s.visited.reverse.map fun (k : Nat) => Json.num (k : Nat)).toArray)])
   | none => pure (Json.mkObj [("valid", Json.bool false), ("firstBad", Json.num (firstBad g min eps md seed tr))])
 
+open Edxml.Miner in
+/-- seed selections of a mining run: `picks` = [[candidates [id, taint, confidence]], choice | null] -/
+def opPick (j : Json) : R Json := do
+  let res ← (← fldArr j "picks").mapM fun p => do
+    match ← arr p with
+    | [cs, ch] =>
+      let cands ← (← arr cs).mapM fun c => do
+        match ← arr c with
+        | [i, t, f] => pure ({ id := ← i.getNat?, taint := ← ratOf t, conf := ← ratOf f } : Cand)
+        | _ => throw "candidate = [id, taint, confidence]"
+      let choice : Option Nat ← (match ch with | Json.null => pure none | x => do pure (some (← x.getNat?)))
+      pure (Json.bool (pickOk cands choice))
+    | _ => throw "pick = [candidates, choice]"
+  pure (Json.mkObj [("ok", Json.arr res.toArray)])
+
 def opMediator (j : Json) : R Json := do
   let ig ← fldBool j "ignoreInvalid"
   let ops ← (← fldArr j "ops").mapM fun o => do
@@ -697,6 +712,7 @@ def dispatch (j : Json) : R Json := do
   | "wstream" => opWStream j
   | "miner" => opMiner j
   | "search" => opSearch j
+  | "pick" => opPick j
   | "mediator" => opMediator j
   | "template" => opTemplate j
   | x => throw s!"unknown op {x}"
